@@ -1,0 +1,8 @@
+//go:build verif
+
+package limiter
+
+// VerifGC runs one pass of the entry garbage collector now, as the gc
+// goroutine would on its next tick. Only compiled into the runtime
+// verification build (build tag "verif").
+func (cl *ClientLimiter) VerifGC() { cl.gc() }
